@@ -14,6 +14,7 @@
 #include <models/ModelBuilder.h>
 
 #include <unordered_set>
+#include <common/VerifTrace.h>
 
 namespace opensmt {
 
@@ -123,6 +124,20 @@ void LASolver::storeExplanation(Simplex::Explanation &&explanationBounds) {
         explanation.push(asgn);
         explanationCoefficients.push_back(explanationBounds[i].coeff);
     }
+#ifdef OPENSMT_VERIF
+    if (OSMT_VERIF_TRACING() and explanation.size() > 0) {
+        std::string line = "FARKAS";
+        for (int i = 0; i < explanation.size(); ++i) {
+            verif::declareSymbolsOf(logic, explanation[i].tr);
+            line += '\t';
+            line += (explanation[i].sgn == l_True ? "+ " : "- ");
+            line += explanationCoefficients[i].get_str();
+            line += ' ';
+            line += logic.termToSMT2String(explanation[i].tr);
+        }
+        verif::emit(line);
+    }
+#endif
 }
 
 bool LASolver::check_simplex(bool complete) {
